@@ -117,6 +117,23 @@ static void run_case(CaseCtx& c)
     else
         u0 = random_vector(rng, n, 1);
 
+    // a cycle is linear in (u, f): data scaled by a power of two (tiny or huge source and boundary values are legal input)
+    // must give the scaled result; 15% of the cases run with everything scaled by 2^-50, 8% by 2^40
+    const double data_scale = rng.coin(0.15) ? std::ldexp(1.0, -50) : (rng.coin(0.09) ? std::ldexp(1.0, 40) : 1.0);
+    if (data_scale != 1.0) {
+        for (int k = 0; k < n; k++) {
+            f[k] *= data_scale;
+            u0[k] *= data_scale;
+        }
+        for (int k = 0; k < xstar.size(); k++)
+            xstar[k] *= data_scale;
+        for (int l = 0; l < nlev; l++) {
+            Vector<double>& r = L[l].rhs();
+            for (int k = 0; k < r.size(); k++)
+                r[k] *= data_scale;
+        }
+    }
+    c.obs.params.num("data_scale", data_scale);
     // reference result (fresh buffers)
     RefCycle rc(L, I, nlev, cfg.pre, cfg.post, fgs);
     Vector<double> u_ref = u0;
